@@ -272,6 +272,30 @@ func (fr *faultRun) alter(d *sim.Delivery) ([]byte, bool) {
 				m.Mutable(fd).List().Truncate(0)
 			}
 			return
+		case "dln-repartition": // a serialised DLN proof with both length prefixes changed consistently (127 / 129)
+			fd := m.Descriptor().Fields().ByName(protoreflect.Name(f.Field.Name))
+			if fd == nil || !fd.IsList() || m.Get(fd).List().Len() != 258 {
+				fr.na = true
+				return
+			}
+			l := m.Mutable(fd).List()
+			var vals [][]byte
+			for i := 0; i < 258; i++ {
+				if i != 0 && i != 129 {
+					vals = append(vals, append([]byte{}, l.Get(i).Bytes()...))
+				}
+			}
+			k := 127 + 2*(f.Salt%2)
+			l.Truncate(0)
+			l.Append(protoreflect.ValueOfBytes([]byte{byte(k)}))
+			for _, v := range vals[:k] {
+				l.Append(protoreflect.ValueOfBytes(v))
+			}
+			l.Append(protoreflect.ValueOfBytes([]byte{byte(256 - k)}))
+			for _, v := range vals[k:] {
+				l.Append(protoreflect.ValueOfBytes(v))
+			}
+			return
 		case "keep-one":
 			fd := m.Descriptor().Fields().ByName(protoreflect.Name(f.Field.Name))
 			if fd != nil && fd.IsList() {
